@@ -92,6 +92,25 @@ def wrapper_rules(prog, rep, rule="WRAP", parts=("state", "reads", "reaches", "a
                         ok = False
                         why = f"`{norm(r)[:80]}` does not return the storage's answer as it is"
                 rep.check(ok, rule, fi.short, "returns the storage's answer", "return <storage call>", f"{why}: what a reader gets is no longer what the storage holds (a cached, filtered or re-built value)", fi.loc())
+        # ---- defaults of the read methods: asking for nothing in particular means "everything"
+        if "reads" in parts:
+            for mname in READS[cname]:
+                fi = ci.methods.get(mname)
+                if fi is None:
+                    continue
+                a_ = fi.node.args
+                pos_ = a_.posonlyargs + a_.args
+                dflt_ = list(zip(pos_[len(pos_) - len(a_.defaults):], a_.defaults)) + [(p_, d_) for p_, d_ in zip(a_.kwonlyargs, a_.kw_defaults) if d_ is not None]
+                for p_, d_ in dflt_:
+                    nm = p_.arg
+                    dv = d_.value if isinstance(d_, ast.Constant) else (-d_.operand.value if isinstance(d_, ast.UnaryOp) and isinstance(d_.op, ast.USub) and isinstance(d_.operand, ast.Constant) and isinstance(d_.operand.value, (int, float)) else "?")
+                    if dv == "?" and isinstance(d_, ast.Name):
+                        from .normalize import known_constants  # noqa: F401  (module constants are inlined by the normaliser; a name left here is not one)
+                    if nm == "limit":
+                        okd = isinstance(dv, int) and not isinstance(dv, bool) and dv < 0
+                        rep.check(okd, rule, fi.short, f"default of {nm}", "negative: no limit", f"`{nm}` defaults to `{norm(d_)}`: a read that does not ask for a limit no longer returns every event (the oldest ones are silently left out once the bucket is larger), while lookups by id and counts still see them", fi.loc())
+                    elif nm in ("starttime", "endtime"):
+                        rep.check(dv is None, rule, fi.short, f"default of {nm}", "None: open edge", f"`{nm}` defaults to `{norm(d_)}`: a read without a window is silently restricted", fi.loc())
         # ---- reaches: an operation is handed to the storage on every path that returns normally
         if "reaches" in parts:
             from .cfg import cfg_of
